@@ -233,7 +233,7 @@ def run(ctx, rec):
     runner.hyp_run(ctx, rec, "char-mutations", char_cases(_repo_programs()), judge, ctx.n(1000, 8000))
     if rec.violations or ctx.quick:
         return
-    st_ = run_atheris(ctx, rec, 60000)
+    st_ = run_atheris(ctx, rec, 30000)
     if st_:
         rec.nontrivial.update(st_["digests"])
         for t in st_["samples"][:1]:
